@@ -219,6 +219,22 @@ def generate():
         env[n] = v
         I("provision_flag_" + n.lower(), v, f)
 
+    # ---- key keeper (C08 / C09) ----
+    f = "proxy_agent/src/key_keeper.rs"
+    for n in ("DISABLE_STATE", "MUST_SIG_WIRESERVER", "MUST_SIG_WIRESERVER_IMDS", "UNKNOWN_STATE"):
+        S("kk_" + n.lower(), rust_str(f, n), f)
+    f = "proxy_agent/src/key_keeper/key.rs"
+    for n in ("AUDIT_MODE", "ENFORCE_MODE", "STATUS_URL", "KEY_URL"):
+        S("kk_" + n.lower(), rust_str(f, n), f)
+    kbody = regex_str(f, r"pub fn get_secure_channel_state\b.*?\{(.*?)\n    \}", "get_secure_channel_state body")
+    for var in ("wireserver", "imds", "hostga"):
+        words = re.findall(r"\b%s\s*=\s*\"([^\"]*)\"" % var, kbody)
+        if len(words) != 4:
+            raise Missing("%s: get_secure_channel_state: expected 4 assignments to `%s` (enforce, audit, else, no item), found %d" % (f, var, len(words)))
+        for tag, w in zip(("enforce", "audit", "other", "none"), words):
+            S("kk_word_%s_%s" % (var, tag), w, f)
+    S("kk_state_format_sep", regex_str(f, r"format!\(\"\{\}([^{}\"]*)\{\}\1\{\}\",\s*wireserver,\s*imds,\s*hostga\)", "state format string"), f)
+
     # ---- setup tool paths and names (C17) ----
     f = "proxy_agent_setup/src/linux.rs"
     for n in ("SERVICE_CONFIG_FILE_NAME", "CONFIG_FILE", "EBPF_FILE", "CONFIG_PATH", "EBPF_PATH"):
